@@ -36,9 +36,10 @@ def stripPrefix? : List Nat → List Nat → Option (List Nat)
 def firstMatch : List (List Nat) → List Nat → Option (List Nat × List Nat)
   | [], _ => none
   | alt :: alts, s =>
-    match alt, stripPrefix? alt s with
-    | _ :: _, some rest => some (alt, rest)
-    | _, _ => firstMatch alts s
+    if alt = [] then firstMatch alts s
+    else match stripPrefix? alt s with
+      | some rest => some (alt, rest)
+      | none => firstMatch alts s
 
 /-- the first match of the alternation anywhere in `s`: (text before it, matched literal, rest) -/
 def splitFirst (alts : List (List Nat)) : List Nat → Option (List Nat × List Nat × List Nat)
